@@ -73,6 +73,7 @@ class Ctx:
         self.fpr = params["fpr"]
         self.qmax = params.get("qmax", 1)
         self.tmp = tempfile.mkdtemp(prefix="exp-", dir=tlc.scratch_root())
+        self.c19_seen = set()
 
     def close(self):
         shutil.rmtree(self.tmp, ignore_errors=True)
@@ -171,7 +172,10 @@ class Ctx:
             return d
 
         if t.focus == "C19":
-            self._c19(t, f, before, rp, kind)
+            k19 = hash(repr((table, hist)))
+            if k19 not in self.c19_seen:
+                self.c19_seen.add(k19)
+                self._c19(t, f, before, rp, kind)
         raised = None
         try:
             f = self.step(f, hf, o, st)
@@ -291,7 +295,7 @@ def run(focus, tier, seed):
     # deeper histories than the exhaustive bound reaches: TLC simulation schedules over the same spec
     nsim = 0
     for p in profiles(tier, seed, focus in ("C05", "C14", "C19")):
-        if focus in FOCUS_FILTER and not FOCUS_FILTER[focus](p):
+        if (focus in FOCUS_FILTER and not FOCUS_FILTER[focus](p)) or (tier == "quick" and focus in ("C05", "C14", "C19")):
             continue
         ps = dict(p, maxdepth=16, maxsubs=6, maxreloads=2)
         const = {k: v for k, v in ps.items() if k != "tables"}
